@@ -3,8 +3,8 @@ CONSTANTS
   Slots = {1, 2}
   MaxNodes = 8
   MaxDepth = 4
-  Entries <- Protected
-  RetryProtected = FALSE
+  Entries <- FailOnly
+  RetryProtected = TRUE
 INIT Init
 NEXT NextE
 CONSTRAINT Bound
